@@ -183,7 +183,7 @@ pub fn run(cx: &mut Cx) {
     // (F) references that exist when first registered and vanish when their provider is replaced
     let n_repl = (POSITIONS.len() + 3) as u64;
     // (G) break/continue under every nesting of loops, captures and branches
-    let n_brk = 64u64;
+    let n_brk = 96u64;
     let total = n_ref + n_depth + n_crash + n_matrix + n_repl + n_brk + cx.total(2000, 40_000);
     let dump = cx.dump;
     for case in cx.my_cases(total) {
@@ -501,9 +501,9 @@ pub fn run(cx: &mut Cx) {
             cx.begin_case(case, "break-continue-nesting");
             let mut shapes: Vec<Vec<u8>> = vec![];
             for len in 2..=4usize {
-                for code in 0..5usize.pow(len as u32) {
+                for code in 0..6usize.pow(len as u32) {
                     let mut c = code;
-                    let sh: Vec<u8> = (0..len).map(|_| { let d = (c % 5) as u8; c /= 5; d }).collect();
+                    let sh: Vec<u8> = (0..len).map(|_| { let d = (c % 6) as u8; c /= 6; d }).collect();
                     if sh.contains(&0) {
                         shapes.push(sh);
                     }
@@ -525,6 +525,8 @@ pub fn run(cx: &mut Cx) {
                             1 => format!("{{% filter upper %}}c{inner}d{{% endfilter %}}"),
                             2 => format!("{{% set s{} %}}e{inner}f{{% endset %}}{{{{ s{} }}}}", sh.len(), sh.len()),
                             3 => format!("{{% <w> %}}g{inner}h{{% </w> %}}"),
+                            // the else branch of a loop that has nothing to iterate: a jump in there belongs to the enclosing loop
+                            5 => format!("{{% for e{} in [] %}}never{{% else %}}m{inner}n{{% endfor %}}", sh.len()),
                             _ => format!("{{% if true %}}j{inner}k{{% endif %}}"),
                         }
                     }
@@ -552,11 +554,12 @@ pub fn run(cx: &mut Cx) {
                                 }
                                 Ok(None)
                             }
-                            4 => {
-                                out.push('j');
+                            4 | 5 => {
+                                let (l, rr) = if sh[0] == 4 { ('j', 'k') } else { ('m', 'n') };
+                                out.push(l);
                                 let r = model(&sh[1..], jump, cur, out)?;
                                 if r.is_none() {
-                                    out.push('k');
+                                    out.push(rr);
                                 }
                                 Ok(r)
                             }
@@ -582,7 +585,7 @@ pub fn run(cx: &mut Cx) {
                     let depth_of_loops = sh.iter().filter(|c| **c == 0).count();
                     let src = format!("head|{}|tail", build(sh, jump, 0)).replace("i0 == 2", "true");
                     let tpls = vec![("w.html".to_string(), "{% component w() %}[{{ body }}]{% endcomponent %}".to_string()), ("t.html".to_string(), src.clone())];
-                    let replay = json!({"templates": tpls, "shape": sh.iter().map(|c| ["for", "filter", "set-block", "component-body", "if"][*c as usize]).collect::<Vec<_>>(), "jump": jump});
+                    let replay = json!({"templates": tpls, "shape": sh.iter().map(|c| ["for", "filter", "set-block", "component-body", "if", "for-else-branch"][*c as usize]).collect::<Vec<_>>(), "jump": jump});
                     cx.eval();
                     let built = guard(|| {
                         let mut t = Tera::default();
@@ -623,7 +626,9 @@ pub fn run(cx: &mut Cx) {
                         }
                         // accepted although the jump crosses a capture: only the stack monitor above decides
                         (Ok(Ok(_)), Err(())) => cx.count("jump_across_capture_accepted", 1),
-                        (Ok(Err(_)), _) => cx.count("renders_err", 1),
+                        // the loop semantics give a text: an accepted shape that then fails is output lost all the same
+                        (Ok(Err(e)), Ok(_)) => cx.violation("C07/jump-shape-accepted-but-fails-to-render", format!("`{jump}` under {:?} was accepted and then failed: {}; the loop semantics give {exp:?}", replay["shape"], clip(&e, 200)), replay),
+                        (Ok(Err(_)), Err(())) => cx.count("renders_err", 1),
                     }
                 }
             }
